@@ -136,27 +136,38 @@ def run(chk):
         # keep a*x+b inside the numerical domain of the likelihood equations (exp(±z/scale) must not overflow):
         # shift by at most ~10 scale units of the transformed sample
         b = float(round(rng.uniform(-10, 10) * a * info["scale"]))
-        y = a * x + b
-        for name, f, k in methods[kind]:
-            chk.count("equivariance." + kind + "." + name)
-            chk.dist("%s.%s" % (kind, name))
-            try:
-                with np.errstate(all="ignore"):
-                    p, q = f(x), f(y)
-            except Exception as e:
-                chk.dist("estimator-raised:" + type(e).__name__)
-                continue
-            if not all(np.isfinite(p)) or not all(np.isfinite(q)):
-                chk.dist("non-finite-fit")
-                continue
-            tol = 1e-7 if name in ("msm", "pwm") else 2e-4
-            sc = abs(p[1])
-            exp = (a * p[0] + b, a * p[1]) + ((p[2],) if k == 3 else ())
-            ok = abs(q[0] - exp[0]) <= tol * (a * sc + abs(exp[0])) and abs(q[1] - exp[1]) <= tol * a * sc and \
-                (k == 2 or abs(q[2] - p[2]) <= max(tol, 1e-6) * p[2])
-            if not ok:
-                chk.fail("fit(a*x+b) == (a*loc+b, a*scale[, shape]) for method %s" % name, dict(info, a=a, b=b, method=name),
-                         [float(v) for v in exp], [float(v) for v in q], method=name)
+        # further maps: a tiny scale (sample std < 1e-4) for every method; a shift that is huge compared with the spread
+        # (|mean|/std ~ 1e5) for the moment estimators only (the likelihood equations would overflow there; the PWM location formula is ill-conditioned in floats by itself: relative error ~ (mean/std)^2 eps)
+        maps = [(a, b, None), (2.0 ** -16, 0.0, None), (1.0, float(round(2 ** 17 * info["scale"])), ("msm",))]
+        for (a, b, only) in maps:
+            y = a * x + b
+            for name, f, k in methods[kind]:
+                if only is not None and name not in only:
+                    continue
+                chk.count("equivariance." + kind + "." + name)
+                chk.dist("%s.%s" % (kind, name))
+                try:
+                    with np.errstate(all="ignore"):
+                        p, q = f(x), f(y)
+                except Exception as e:
+                    chk.dist("estimator-raised:" + type(e).__name__)
+                    if only is not None or a < 1e-3:
+                        chk.fail("estimator must not raise on a valid sample (fit of a*x+b)", dict(info, a=a, b=b, method=name),
+                                 "fit", type(e).__name__, method=name)
+                    continue
+                if not all(np.isfinite(p)) or not all(np.isfinite(q)):
+                    chk.dist("non-finite-fit")
+                    continue
+                tol = 1e-7 if name in ("msm", "pwm") else 2e-4
+                if b != 0.0 and only is not None:
+                    tol = 1e-5      # |mean|/std ~ 1e5: allow the float cancellation of the centred moments themselves
+                sc = abs(p[1])
+                exp = (a * p[0] + b, a * p[1]) + ((p[2],) if k == 3 else ())
+                ok = abs(q[0] - exp[0]) <= tol * (a * sc + abs(exp[0])) and abs(q[1] - exp[1]) <= tol * a * sc and \
+                    (k == 2 or abs(q[2] - p[2]) <= max(tol, 1e-6) * p[2])
+                if not ok:
+                    chk.fail("fit(a*x+b) == (a*loc+b, a*scale[, shape]) for method %s" % name, dict(info, a=a, b=b, method=name),
+                             [float(v) for v in exp], [float(v) for v in q], method=name)
         # two-parameter Weibull: scale equivariance only
         if kind == "wb" and np.all(x > 0):
             p, q = weibull.pwm2(x), weibull.pwm2(a * x)
